@@ -27,6 +27,7 @@ def run(ctx):
     rule_points_bbox(ctx, "R13.2")
     rule_path_contains(ctx, "R13.3")
     rule_polygon_structure(ctx, "R13.4")
+    rule_polygon_horizontal_edges(ctx, "R13.4")
     ctx.assume("Polygon::contains: the winding-number arithmetic (crossing abscissa by integer division, vertices on the ray, collinear and repeated vertices) is NOT decided; only the structure around it is")
     ctx.assume("half widths are width / 2 in integer arithmetic, as the code computes them; the property's 'within half the width' is read with flush segment ends")
 
@@ -240,3 +241,73 @@ def rule_polygon_structure(ctx, rid):
         ctx.ok(rid, "Polygon::contains/answer", "final answer compares the winding counter with zero")
     else:
         ctx.violation(rid, "Polygon::contains/answer", "the final answer is not a zero test of the winding counter", site)
+
+
+
+def rule_polygon_horizontal_edges(ctx, rid):
+    """The one clause of Polygon::contains that is comparison-only: a point of a horizontal edge is inside (boundary
+    included), whichever way the edge is stored — and that shortcut fires for no other point."""
+    F = ctx.F
+    cands = [f for f in F.fns.values() if f.short == "<geom::Polygon as geom::ShapeTrait>::contains"]
+    if len(cands) != 1:
+        return
+    f = cands[0]
+    w = Walker(f, max_visits=1, follow_errors=True, max_paths=20000)
+    rets = []
+    w.run(on_return=lambda p: rets.append((dict(p.facts), p.env.get(0))))
+    trues = [fa for fa, r in rets if r is not None and r[0] == "const" and r[2] == 1]
+    if not trues:
+        ctx.note(rid, "Polygon::contains: no early `true` inside the edge loop (no on-edge shortcut to decide)")
+        return
+
+    def which(ix):
+        """'next' for points[(idx + 1) % len], 'past' for points[idx]"""
+        return "next" if (ix[0] == "op" and ix[1] == "Rem") else "past"
+
+    def mkleaf(past, nxt, pt):
+        def leaf(t):
+            if t[0] == "f" and t[2] in ("x", "y"):
+                base = t[1]
+                if base[0] == "call" and base[1] and INDEX.search(base[1]) and len(base[2]) == 2:
+                    p = nxt if which(base[2][1]) == "next" else past
+                    return p[0 if t[2] == "x" else 1]
+                root, ch = field_chain(t)
+                if root == ("param", 2) and ch == [t[2]]:
+                    return pt[0 if t[2] == "x" else 1]
+            return None
+        return leaf
+    # keep the paths that are decided by comparisons of the edge and the point only: drop facts the evaluator cannot see
+    n = 0
+    missed = None
+    spurious = None
+    dom = (0, 1, 2)
+    for px, nx, x in itertools.product(dom, repeat=3):
+        for ey, y in itertools.product((0, 1), repeat=2):
+            past, nxt, pt = (px, ey), (nx, ey), (x, y)   # a horizontal edge at height ey
+            leaf = mkleaf(past, nxt, pt)
+            on_edge = (y == ey) and min(px, nx) <= x <= max(px, nx)
+            fired = False
+            for fa in trues:
+                try:
+                    # only shortcut paths that test the edge for being horizontal
+                    horizontal_fact = any(k[0] == "val" and k[1][0] == "op" and k[1][1] == "Eq" and "y" in str(k[1])[-40:] and v in (("!=", (0,)), ("=", 1)) for k, v in fa.items())
+                    if not horizontal_fact:
+                        continue
+                    if ev.facts_hold(fa, leaf, strict=False):
+                        fired = True
+                except ev.NotEvaluable:
+                    continue
+            n += 1
+            if on_edge and not fired and missed is None:
+                missed = (past, nxt, pt)
+            if fired and not on_edge and spurious is None:
+                spurious = (past, nxt, pt)
+    key = "Polygon::contains/horizontal-edge"
+    site = "%s:%d" % (f.sp[0], f.sp[1])
+    if missed:
+        ctx.violation(rid, key, "Polygon::contains: the point %s lies on the horizontal edge %s-%s but the on-edge shortcut does not fire for it (an edge stored right-to-left?): boundary points can be reported outside" % (missed[2], missed[0], missed[1]), site, key)
+    elif spurious:
+        ctx.violation(rid, key, "Polygon::contains: the on-edge shortcut fires for the point %s, which is not on the horizontal edge %s-%s" % (spurious[2], spurious[0], spurious[1]), site, key)
+    else:
+        ctx.ok(rid, key, "%d (edge, point) orderings: the shortcut fires exactly for the points of the edge" % n)
+
